@@ -18,14 +18,20 @@ Definition ai_next (it : aiter) : option (option (arg * aiter)) :=
     | raw :: ts =>
       if vonly it then Some (Some (Value raw, {| vonly := true; leftover := leftover it; toks := ts |}))
       else match raw with
-      | 45 :: 45 :: [] => Some (Some (DoubleDash, {| vonly := true; leftover := leftover it; toks := ts |}))
-      | 45 :: 45 :: name => Some (Some (LongOption name, {| vonly := false; leftover := leftover it; toks := ts |}))
-      | 45 :: b :: r =>
-        do q <- char_pop_front (b :: r);
-        match q with
-        | Some (c, rest) => Some (Some (ShortOption c, {| vonly := false; leftover := rest; toks := ts |}))
-        | None => None (* unwrap_unchecked on None *)
-        end
+      | b0 :: b1 :: rest =>
+        if b0 =? 45 then
+          if b1 =? 45 then
+            match rest with
+            | [] => Some (Some (DoubleDash, {| vonly := true; leftover := leftover it; toks := ts |}))
+            | _ => Some (Some (LongOption rest, {| vonly := false; leftover := leftover it; toks := ts |}))
+            end
+          else
+            do q <- char_pop_front (b1 :: rest);
+            match q with
+            | Some (c, rest') => Some (Some (ShortOption c, {| vonly := false; leftover := rest'; toks := ts |}))
+            | None => None (* unwrap_unchecked on None *)
+            end
+        else Some (Some (Value raw, {| vonly := false; leftover := leftover it; toks := ts |}))
       | _ => Some (Some (Value raw, {| vonly := false; leftover := leftover it; toks := ts |}))
       end
     end
